@@ -61,6 +61,10 @@ CLAIMED = {
    "Every valid geometry of a lattice universe (full 3x3 operand alphabet, holes family, star family of MultiLineStrings sharing end points 2/3/4 ways in every member order, every simple <=7-gon of 3x3 under 8 anisotropic scalings, combs with 2..4 teeth and polygons with 2..3 holes in a row for every combination of tooth/notch/hole/gap widths in {1,2,3} and 4 orientations, closed / self-touching / self-crossing lines, collections with empty members) and affine images: Boundary() is compared cell by cell (every vertex, edge and face of the exact arrangement) with the DE-9IM boundary, and checked for dimension, emptiness of its own boundary, polygon type rule and the collection rule; PointOnSurface is located exactly (strictly interior of an areal member, on the highest-dimension part otherwise, empty iff empty, XY); Dimension/IsEmpty against the structure.",
    "Trust: exact/ Locate and arrangement. Boundary keeping Z/M is not claimed by the property and not checked (the library documents Force2D there).",
    "bounded-exhaustive input enumeration on the real code against the exact interior/boundary model", "4/C15"),
+ "C16": ("model_checking",
+   "Every structural shape S(d,w) x 4 coordinate types (valid cell-lattice instantiation with every vertex tagged Z=1000+i, M=2000+i so a misplaced payload is visible) and every collection built from 1..3 members constructed with every assignment of the 4 coordinate types: a structural walker asserts one coordinate type on the root and on every member / ring / point / sequence reachable through every accessor; constructors yield the common subset; ForceCoordinatesType x4 and Force2D are compared with a reference (dropped gone, added zero, XY bit-identical, also on empties); Reverse, ForceCW/CCW, SnapToGrid, TransformXY, Densify, Dump, DumpCoordinates, DumpRings, Coordinates, AsMulti*, WKB/WKT keep the type and carry each vertex's Z/M with its XY; Centroid, ConvexHull, PointOnSurface, Envelope, rotated rectangle and the set operations return XY.",
+   "Trust: refcodec/node.go walker and forceNode in checks/c16.go. The operation list is explicit (the one in the property), not discovered by reflection.",
+   "bounded-exhaustive enumeration of shapes x coordinate types x operations on the real code against a structural reference", "4/C16"),
 }
 
 PENDING = {}
